@@ -7,6 +7,9 @@ TB = ("Trusted: Coq 8.16.1 kernel; no axioms of our own (Print Assumptions allow
       "the differential correspondence run (Rust harness built from /repo's working tree vs OCaml extracted with ExtrOcamlBasic); extract/driver.ml, "
       "tools/*.py and harness/src/*.rs are trusted glue. ")
 
+ASM = "Premises (all about the user's model / configuration, see DESIGN.md section 4): clean diagram flavours (LEL, frontier), no cache, no dominance rule, SimpleFringe, width >= 1, static variable order, a covering relation making merge / relax / the rough bound sound, bounded domains, values of feasible runs within [-B, B] with 2B <= isize::MAX; shown satisfiable by a table family the correspondence harness runs (TableWf.v). "
+TIE = "The solver / protocol model is compared run by run with the code in every configuration (3 flavours x cache x fringe x widths x dominance) and the implementation's answers with exhaustive enumeration extracted from the Coq specification; pooled / cache / dominance / NoDupFringe configurations are covered by that correspondence + oracle only. "
+
 CHECKS = {
  "C17": dict(cat="proof", design="7.17",
    text="Closed Coq theorems (Flocq binary32) for every pair of isize bounds: never NaN, never negative, 1 while a bound is infinite, 0 iff bounds "
@@ -86,49 +89,71 @@ CHECKS = {
         "closed; the semantic bound/cover theorems are still open obligations (listed in the evidence).",
    note=TB + "Hash-map iteration order is abstracted (layers sorted by a total DominanceChecker comparator; tie among equally valued terminals = oracle argument).",
    technique="executable Coq model + differential correspondence + specification oracle; partial Coq theorems"),
- "C01": dict(cat="other", design="7.1",
-   text="Sequential branch-and-bound returns the true optimum. Closed Coq theorem (SolverProofs.v): for the model of SequentialSolver (no cache, no dominance, SimpleFringe), IF every diagram compilation satisfies the diagram contracts (feasible exact values, optimality of exact diagrams, exact / deeper / validly bounded / covering cut-sets) THEN maximize terminates within an explicit fuel bound, reports is_exact and the optimum (no value iff infeasible), lower = upper bound = optimum, with a feasible solution. The diagram contracts are only partly proved (open obligations in the evidence). The solver model is compared run by run with the code in every configuration (flavour x cache x fringe x width x dominance), and the implementation's value with exhaustive enumeration extracted from the Coq specification.",
-   note=TB + "Hash-map iteration order abstracted; ties among equally valued terminal nodes reported and excluded from trajectory comparisons.",
-   technique="Coq model + assume-guarantee proof / protocol LTS + differential correspondence + specification oracle"),
- "C02": dict(cat="other", design="7.2",
-   text="Reported solution feasible and consistent with the reported value. Every solution reported by the sequential solver (uninterrupted, cut off at every poll) and by scheduled / un-scheduled parallel runs is replayed through the model's transition and cost functions; value = lower bound = Completion value; upper bound = value after an uninterrupted run. Coq: SolverProofs (incumbent invariant) and the best-path replay invariant of the diagram model (MddExact.v) as registered.",
-   note=TB + "Hash-map iteration order abstracted; ties among equally valued terminal nodes reported and excluded from trajectory comparisons.",
-   technique="Coq model + assume-guarantee proof / protocol LTS + differential correspondence + specification oracle"),
- "C03": dict(cat="other", design="7.3",
-   text="Parallel solver optimal for every interleaving and thread count. A Coq labelled transition system of the coordination protocol (Par.v: one transition per acquisition of the critical mutex) is trace-validated against the real worker threads, serialised by a scheduler through feature-guarded hooks: every schedule with <= k pre-emptions on tiny instances, random schedules beyond, 1..8 workers; identical (worker, critical section) sequences and results; the implementation's value compared with exhaustive enumeration; un-scheduled 2..16-thread stress.",
-   note=TB + "Hash-map iteration order abstracted; ties among equally valued terminal nodes reported and excluded from trajectory comparisons.",
-   technique="Coq model + assume-guarantee proof / protocol LTS + differential correspondence + specification oracle"),
- "C04": dict(cat="other", design="7.4",
-   text='Parallel solver always terminates. Same scheduled exploration with cutoffs firing at random polls and thread counts different from the construction-time count: deadlock = scheduler state with no runnable worker while one is parked; step bound; watchdog. Finding D2 (with_nb_threads above the construction count: out-of-bounds panic, then hang) was reproduced and repaired (fix: commit); the protocol model contains the pre-fix variant as refutation.',
-   note=TB + "Hash-map iteration order abstracted; ties among equally valued terminal nodes reported and excluded from trajectory comparisons.",
-   technique="Coq model + assume-guarantee proof / protocol LTS + differential correspondence + specification oracle"),
- "C05": dict(cat="other", design="7.5",
-   text='Bounds stay sound when the search is cut off at any point. Sequential: counting cutoff firing at EVERY poll index of the uninterrupted run; bounds enclose the optimum of exhaustive enumeration, solution replays to the lower bound, exactness only when optimal; Coq solver model compared at every index. Parallel: scheduled runs with cutoffs (finding D3: unsound upper bound after an abort, reproduced and repaired by a fix: commit).',
-   note=TB + "Hash-map iteration order abstracted; ties among equally valued terminal nodes reported and excluded from trajectory comparisons.",
-   technique="Coq model + assume-guarantee proof / protocol LTS + differential correspondence + specification oracle"),
+ "C01": dict(cat="proof", design="7.1",
+   text="Sequential branch-and-bound returns the true optimum. Closed, axiom-free Coq theorem C01_sequential_solver_returns_optimum (Assembly.v = SolverProofs.v + MddProgress.v + MddSim.v): "
+        "there is f0 such that for every fuel >= f0 the model of SequentialSolver::maximize neither crashes nor runs out of fuel, reports is_exact, best_value = the optimum of exhaustive "
+        "enumeration (None iff infeasible), lower = upper bound = optimum and a solution feasible with that value. " + ASM + TIE,
+   note=TB + "Hash-map iteration order abstracted (total comparator + tie-break oracle arguments); ties among equally valued terminal nodes are reported and excluded from trajectory comparisons.",
+   technique="Coq proof (two storeys: B&B under diagram contracts; contracts proved about the diagram model) + differential correspondence + specification oracle"),
+ "C02": dict(cat="proof", design="7.2",
+   text="Reported solution feasible and consistent with the reported value. Coq: C02_sequential_solution_replays_to_reported_value (the returned solution is a permutation of a complete "
+        "decision sequence that replays, in exact integer arithmetic, to exactly the reported value), C05_sequential_anytime_bounds_sound (same for a run cut off anywhere), "
+        "C03_parallel_solver_returns_optimum (finished parallel runs), diagram level best_exact_solution_genuine. " + ASM +
+        "Check: every solution reported by the sequential solver (uninterrupted, cut off at every poll) and by scheduled / un-scheduled parallel runs is replayed through the model's "
+        "transition and cost functions; value = lower bound = Completion value; upper bound = value after an uninterrupted run; solver, diagram and fringe models compared with the code.",
+   note=TB + "Hash-map iteration order abstracted (total comparator + tie-break oracle arguments); ties among equally valued terminal nodes are reported and excluded from trajectory comparisons.",
+   technique="Coq proof (two storeys: B&B under diagram contracts; contracts proved about the diagram model) + differential correspondence + specification oracle"),
+ "C03": dict(cat="proof", design="7.3",
+   text="Parallel solver optimal for every interleaving and thread count. Closed Coq theorem C03_parallel_solver_returns_optimum about a labelled transition system of the coordination "
+        "protocol (Par.v: one transition per acquisition of the critical mutex): for every T >= 1, every schedule, every feasible warm start and fuel >= fuelP the run ends Finished, exact, with "
+        "the optimum of exhaustive enumeration and a feasible solution. " + ASM + "The LTS is trace-validated against the real worker threads, serialised by a scheduler through "
+        "feature-guarded hooks: every schedule with <= k pre-emptions on tiny instances, random schedules beyond, 1..8 workers; identical (worker, critical section) sequences and results; "
+        "the implementation's value compared with exhaustive enumeration; un-scheduled 2..16-thread stress.",
+   note=TB + "Hash-map iteration order abstracted (total comparator + tie-break oracle arguments); ties among equally valued terminal nodes are reported and excluded from trajectory comparisons." + " Not modelled: memory ordering, spurious condvar wake-ups, interleavings inside a critical section.",
+   technique="Coq proof (two storeys: B&B under diagram contracts; contracts proved about the diagram model) + differential correspondence + specification oracle"),
+ "C04": dict(cat="proof", design="7.4",
+   text="Parallel solver always terminates. Closed Coq theorems on the protocol LTS: C04_parallel_terminates (every schedule reaches Finished within the explicit bound fuelP), "
+        "C04_no_deadlock_no_crash_any_cutoff, C04_no_reachable_deadlock, completion only when nothing is open or in progress. " + ASM +
+        "Trace validation as for C03, with cutoffs firing at random polls and thread counts different from the construction-time count: deadlock = scheduler state with no runnable worker "
+        "while one is parked; step bound; watchdog. Finding D2 (with_nb_threads above the construction count: out-of-bounds panic, then hang) was reproduced and repaired (fix: commit); the "
+        "protocol model contains the pre-fix variant as refutation.",
+   note=TB + "Hash-map iteration order abstracted (total comparator + tie-break oracle arguments); ties among equally valued terminal nodes are reported and excluded from trajectory comparisons." + " Not modelled: spurious condvar wake-ups; the post-panic behaviour of the other workers (irrelevant once no panic is reachable).",
+   technique="Coq proof (two storeys: B&B under diagram contracts; contracts proved about the diagram model) + differential correspondence + specification oracle"),
+ "C05": dict(cat="proof", design="7.5",
+   text="Bounds stay sound when the search is cut off at any point. Sequential: closed Coq theorem C05_sequential_anytime_bounds_sound for ANY cutoff point, fuel and feasible warm start: no crash, "
+        "lb <= ub, lb <= optimum <= ub, a reported value comes with a feasible solution of that value, exact => optimum. " + ASM +
+        "Check: counting cutoff firing at EVERY poll index of the uninterrupted run; bounds enclose the optimum of exhaustive enumeration, solution replays to the lower bound; solver model "
+        "compared at every index. Parallel: no full theorem (partial lemmas about the abort path); scheduled runs with cutoffs incl. runs where two workers abort "
+        "(finding D3: unsound upper bound after an abort, reproduced and repaired by a fix: commit).",
+   note=TB + "Hash-map iteration order abstracted (total comparator + tie-break oracle arguments); ties among equally valued terminal nodes are reported and excluded from trajectory comparisons.",
+   technique="Coq proof (two storeys: B&B under diagram contracts; contracts proved about the diagram model) + differential correspondence + specification oracle"),
  "C09": dict(cat="other", design="7.9",
-   text='The threshold cache never changes the answer. Store level: proved (C18). Search level: caching vs non-caching solvers vs exhaustive enumeration on re-converging instances; the Coq models of diagrams and solver include the threshold computations and the cache, and agree with the code on explored-node and poll counts. Search-level soundness theorem is open.',
-   note=TB + "Hash-map iteration order abstracted; ties among equally valued terminal nodes reported and excluded from trajectory comparisons.",
-   technique="Coq model + assume-guarantee proof / protocol LTS + differential correspondence + specification oracle"),
- "C14": dict(cat="other", design="7.14",
-   text="A warm-start primal never makes the solver miss a better solution. Closed Coq theorem seq_solver_correct_primal (under the diagram contracts, as C01) and set_primal_strict; runs with primal = optimum / best sub-optimal / worst feasible value taken from the specification's enumeration, sequential model compared.",
-   note=TB + "Hash-map iteration order abstracted; ties among equally valued terminal nodes reported and excluded from trajectory comparisons.",
-   technique="Coq model + assume-guarantee proof / protocol LTS + differential correspondence + specification oracle"),
+   text='The threshold cache never changes the answer. Store level: proved (C18). Search level: caching vs non-caching solvers vs exhaustive enumeration on re-converging instances; the Coq models of diagrams and solver include the threshold computations and the cache, and agree with the code on explored-node and poll counts, on every threshold drawn in the DOT dump and on every cache call of a diagram-level stream that uses the stores the way the solvers do. Search-level soundness theorem is open.',
+   note=TB + "Hash-map iteration order abstracted (total comparator + tie-break oracle arguments); ties among equally valued terminal nodes are reported and excluded from trajectory comparisons.",
+   technique="executable Coq model + differential correspondence + specification oracle; store-level Coq proof"),
+ "C14": dict(cat="proof", design="7.14",
+   text="A warm-start primal never makes the solver miss a better solution. Closed Coq theorem C14_primal_never_hides_the_optimum (any feasible (value, solution) given to set_primal: same "
+        "conclusion as C01) and set_primal_strict (the incumbent is replaced only by a strictly better pair, value and solution together). " + ASM +
+        "Check: runs with primal = optimum / best sub-optimal / worst feasible value and sequences of set_primal calls, taken from the specification's enumeration; sequential model compared.",
+   note=TB + "Hash-map iteration order abstracted (total comparator + tie-break oracle arguments); ties among equally valued terminal nodes are reported and excluded from trajectory comparisons.",
+   technique="Coq proof (two storeys: B&B under diagram contracts; contracts proved about the diagram model) + differential correspondence + specification oracle"),
  "C15": dict(cat="other", design="7.15",
-   text='Long arcs preserve optimum and termination. Pooled vs plain solver vs exhaustive enumeration on depth-free models with irrelevance patterns; termination watchdog. KNOWN FINDING D1: without cache the pooled solver may never terminate because a sub-problem can enter its own frontier cut-set (recorded in KNOWN_FINDINGS.json, not repairable by a small patch).',
-   note=TB + "Hash-map iteration order abstracted; ties among equally valued terminal nodes reported and excluded from trajectory comparisons.",
-   technique="Coq model + assume-guarantee proof / protocol LTS + differential correspondence + specification oracle"),
- "C19": dict(cat="other", design="7.19",
-   text='Sequential anytime behaviour monotone in the cutoff point. All consecutive cutoff indices 1..K+1 of each run: lower bound non-decreasing, upper bound non-increasing, exact with both bounds at the optimum after the last poll; Coq solver model compared at every index. Monotonicity theorem open.',
-   note=TB + "Hash-map iteration order abstracted; ties among equally valued terminal nodes reported and excluded from trajectory comparisons.",
-   technique="Coq model + assume-guarantee proof / protocol LTS + differential correspondence + specification oracle"),
+   text='Long arcs preserve optimum and termination. Pooled vs plain solver vs exhaustive enumeration on depth-free models with irrelevance patterns; termination watchdog; diagram model compared. No theorem for the pooled flavour. KNOWN FINDING D1: without cache the pooled solver may never terminate because a sub-problem can enter its own frontier cut-set (recorded in KNOWN_FINDINGS.json, not repairable by a small patch; suppressed only where the Coq model of the unchanged code reproduces the same symptom on the same instance).',
+   note=TB + "Hash-map iteration order abstracted (total comparator + tie-break oracle arguments); ties among equally valued terminal nodes are reported and excluded from trajectory comparisons.",
+   technique="executable Coq model + differential correspondence + specification oracle"),
+ "C19": dict(cat="proof", design="7.19",
+   text="Sequential anytime behaviour monotone in the cutoff point. Closed Coq theorems C19_bounds_monotone_in_cutoff / _any_later_cutoff (lower bound non-decreasing, upper bound non-increasing "
+        "in the poll index at which the cutoff fires) and C19_large_cutoff_is_uninterrupted_run. " + ASM +
+        "Check: all consecutive cutoff indices 1..K+1 of each run, both fringes; exact with both bounds at the optimum after the last poll; solver and fringe models compared at every index.",
+   note=TB + "Hash-map iteration order abstracted (total comparator + tie-break oracle arguments); ties among equally valued terminal nodes are reported and excluded from trajectory comparisons.",
+   technique="Coq proof (two storeys: B&B under diagram contracts; contracts proved about the diagram model) + differential correspondence + specification oracle"),
  "C16": dict(cat="other", design="7.16",
    text="Every shipped example solver computes the true optimum. Independent brute-force specifications of the twelve combinatorial problems in Gallina "
         "(ExSpec.v: enumeration of subsets / permutations / assignments, NOT dynamic programs), extracted to OCaml and used as oracle for the example BINARIES "
         "built from the working tree, on generated instance files in each format (bounded-exhaustive smallest sizes in the thorough tier) x widths {1,2,3,default} "
         "x threads {1,2,4}; timeouts = hangs, non-zero exit = crash. The oracle is re-validated on every run against the optima documented in the examples' tests. "
-        "No Coq proof that the examples' models are well formed (stated in DESIGN.md): this is specification + differential test. Two defects were repaired "
-        "(knapsack, misp rough bounds), the others are recorded as known findings.",
+        "No Coq proof that the examples' models are well formed (stated in DESIGN.md): this is specification + differential test. Three defects were repaired "
+        "(knapsack rough bound twice, misp rough bound), the others are recorded as known findings.",
    note=TB + "exdriver.ml contains independent parsers of the twelve input formats (trusted glue).",
    technique="independent Gallina enumeration specs (extracted) as oracle for the example binaries"),
 }
